@@ -14,7 +14,9 @@ vars == <<c>>
 
 (* ------------------------------ tiles ------------------------------ *)
 \* source tiles: level 0, level 2 (asymmetric), level 31 corner; payload ids distinct
-SrvTiles == { <<0, 0, 0, 1>>, <<2, 1, 0, 2>>, <<2, 3, 2, 3>>, <<2, 0, 3, 4>>, <<31, 2147483647, 2147483647, 5>>, <<9, 256, 255, 6>> }
+\* payload 7 is a BIG tile (17 MiB of compressible content): whatever the server does to a tile, it does to all of it
+SrvTiles == { <<0, 0, 0, 1>>, <<2, 1, 0, 2>>, <<2, 3, 2, 3>>, <<2, 0, 3, 4>>, <<31, 2147483647, 2147483647, 5>>, <<9, 256, 255, 6>>, <<3, 1, 1, 7>> }
+BigCoords == { <<"3", "1", "1">>, <<"3", "1", "6">> }         \* where the big tile is found without / with --flip-y
 \* kind = how the source is named on the command line; sid = the id requests have to use (ServedId)
 RawSources == <<
     [id |-> "vpn", fmt |-> "versatiles", tf |-> "pbf", tc |-> "none", kind |-> "prefix"],
@@ -46,6 +48,7 @@ Big(t) == [txt |-> t, kind |-> "big", v |-> 0]
 \* <<z, x, y>> classes: present, absent in range, x / y beyond the level, level 31 corner, z in 32..255, z = 256,
 \* non-numeric parts, y with extension, non-ASCII digits
 ReqCoords == {
+    <<NumS("3", 3), NumS("1", 1), NumS("1", 1)>>, <<NumS("3", 3), NumS("1", 1), NumS("6", 6)>>,
     <<NumS("0", 0), NumS("0", 0), NumS("0", 0)>>, <<NumS("2", 2), NumS("1", 1), NumS("0", 0)>>, <<NumS("2", 2), NumS("3", 3), NumS("2", 2)>>,
     <<NumS("2", 2), NumS("0", 0), NumS("3", 3)>>, <<NumS("2", 2), NumS("0", 0), NumS("1", 1)>>, <<NumS("2", 2), NumS("2", 2), NumS("3", 3)>>,
     <<NumS("2", 2), NumS("1", 1), NumS("3", 3)>>, <<NumS("2", 2), NumS("3", 3), NumS("0", 0)>>,
@@ -108,6 +111,8 @@ Emit(rec) == PrintT(<<"REPLAY", ToJson(rec)>>)
 Init ==
     IF Mode = "tiles"
     THEN \E i \in 1..Len(Instances), s \in 1..Len(Sources), q \in ReqCoords, S \in Subsets, rd \in Renderings :
+            \* (the big tile is asked for by three kinds of client only: no header, gzip, identity -- 17 MiB per answer)
+            /\ (<<q[1].txt, q[2].txt, q[3].txt>> \in BigCoords => (S \in {{}, {1}, {4}} /\ rd = 0))
             /\ c = <<i, s, q, S, rd>>
             /\ Emit([k |-> "tile", inst |-> i, flags |-> Instances[i], src |-> Sources[s], tiles |-> SetToSeq(SrvTiles),
                      z |-> CoordFix(q)[1], x |-> CoordFix(q)[2], y |-> CoordFix(q)[3],
